@@ -56,18 +56,23 @@ Qed.
 
 Ltac band H := repeat match type of H with (_ && _) = true => let H2 := fresh H in apply andb_true_iff in H; destruct H as [H H2] end.
 
+Definition nonnilb (w : bytes) : bool := negb (nilb w).
+Lemma nonnilb_ok : forall w, nonnilb w = true -> w <> [].
+Proof. intros [|c w] H; [discriminate | discriminate]. Qed.
+
 Ltac fin_ok := repeat match goal with |- _ /\ _ => split end; try assumption; try (apply run_ofb_ok; assumption); try (apply is_baseb_ok; assumption);
-  try (apply is_sepb_ok; assumption); try (apply int64b_ok; assumption).
+  try (apply is_sepb_ok; assumption); try (apply int64b_ok; assumption); try (apply nonnilb_ok; assumption).
 
 (** ** typedefs and enums *)
 Definition td_okb (d : td_spec) : bool :=
-  run_ofb p_blank (td_g1 d) && is_baseb (td_base d) && run_ofb p_blank (td_g2 d) && identb (td_c d) (td_t d)
-  && run_ofb p_blank (td_g3 d) && run_ofb p_wsnl (td_w d).
+  run_ofb p_blank (td_g1 d) && is_baseb (td_base d) && run_ofb p_blank (td_g2 d) && nonnilb (td_g2 d)
+  && identb (td_c d) (td_t d) && run_ofb p_blank (td_g3 d) && run_ofb p_wsnl (td_w d).
 
 Lemma td_okb_ok : forall d, td_okb d = true -> td_ok d.
 Proof.
   intros d H. unfold td_okb in H. apply andb_true_iff in H. destruct H as [H Hw]. apply andb_true_iff in H.
   destruct H as [H Hg3]. apply andb_true_iff in H. destruct H as [H Hid]. apply andb_true_iff in H.
+  destruct H as [H Hg2n]. apply andb_true_iff in H.
   destruct H as [H Hg2]. apply andb_true_iff in H. destruct H as [Hg1 Hb].
   destruct (identb_ok _ _ Hid) as (Hc & Hp & Ht). unfold td_ok. fin_ok.
 Qed.
@@ -108,13 +113,16 @@ Qed.
 
 Definition en_okb (e : en_spec) : bool :=
   run_ofb p_blank (e_g1 e) && identb (e_c e) (e_t e) && run_ofb p_wsnl (e_w1 e) && run_ofb p_wsnl (e_w2 e)
-  && evs_okb (e_vs e) && run_ofb p_blank (e_g3 e) && run_ofb p_wsnl (e_w e).
+  && evs_okb (e_vs e) && run_ofb p_blank (e_g3 e) && run_ofb p_wsnl (e_w e)
+  && match enum_overflow (map ev_pair (e_vs e)) 0 false with None => true | Some _ => false end.
 
 Lemma en_okb_ok : forall e, en_okb e = true -> en_ok e.
 Proof.
   intros e H. unfold en_okb in H. band H.
   match goal with Hid : identb _ _ = true |- _ => destruct (identb_ok _ _ Hid) as (Hc & Hp & Ht) end.
-  unfold en_ok. fin_ok. apply evs_okb_ok; assumption.
+  unfold en_ok. fin_ok; try (apply evs_okb_ok; assumption).
+  match goal with Hov : match enum_overflow _ _ _ with None => true | Some _ => false end = true |- _ =>
+    destruct (enum_overflow (map ev_pair (e_vs e)) 0 false); [discriminate Hov | reflexivity] end.
 Qed.
 
 (** ** types, fields, struct-likes *)
@@ -131,6 +139,13 @@ Proof.
     fin_ok; auto.
 Qed.
 
+Definition ty_tightb (t : ty_spec) : bool := match t with T_base _ g => nonnilb g | _ => true end.
+Lemma ty_tightb_ok : forall t, ty_tightb t = true -> ty_tight t.
+Proof. intros [b g|? ? ?|? ? ?|? ? ? ? ?] H; cbn in *; try exact I. exact (nonnilb_ok g H). Qed.
+Definition mod_sepb (m : fmod_spec) : bool := match m with M_default => true | _ => nonnilb (mod_gap m) end.
+Lemma mod_sepb_ok : forall m, mod_sepb m = true -> match m with M_default => True | _ => mod_gap m <> [] end.
+Proof. intros [|g|g] H; cbn in *; [exact I | exact (nonnilb_ok g H) | exact (nonnilb_ok g H)]. Qed.
+
 Definition fd_tail_okb_l (tl : fd_tail) (last : bool) : bool :=
   match tl with
   | FT_plain W => run_ofb p_wsnl W && (negb (nilb W) || last)
@@ -138,7 +153,7 @@ Definition fd_tail_okb_l (tl : fd_tail) (last : bool) : bool :=
   end.
 Definition fd_okb_l (f : fd_spec) (last : bool) : bool :=
   int64b (fd_id f) && run_ofb p_blank (fd_g1 f) && run_ofb p_blank (fd_g2 f) && run_ofb p_blank (mod_gap (fd_mod f))
-  && ty_okb (fd_ty f) && identb (fd_c f) (fd_t f) && fd_tail_okb_l (fd_tl f) last.
+  && mod_sepb (fd_mod f) && ty_okb (fd_ty f) && ty_tightb (fd_ty f) && identb (fd_c f) (fd_t f) && fd_tail_okb_l (fd_tl f) last.
 Fixpoint fds_okb (fs : list fd_spec) : bool :=
   match fs with
   | [] => true
@@ -150,7 +165,8 @@ Proof.
   induction fs as [|f r IH]; intros H; [exact I|]. cbn [fds_okb fds_ok] in *. band H. split; [|exact (IH H0)].
   unfold fd_okb_l in H. band H.
   match goal with Hid : identb _ _ = true |- _ => destruct (identb_ok _ _ Hid) as (Hc & Hp & Ht) end.
-  unfold fd_ok_l, mod_ok. fin_ok; try (apply ty_okb_ok; assumption).
+  unfold fd_ok_l, mod_ok. fin_ok; try (apply ty_okb_ok; assumption); try (apply ty_tightb_ok; assumption);
+    try (apply mod_sepb_ok; assumption).
   match goal with Htl : fd_tail_okb_l _ _ = true |- _ => rename Htl into Htail end.
   destruct (fd_tl f) as [W|W sep W']; cbn [fd_tail_okb_l fd_tail_ok_l fd_tail_ok] in *; band Htail.
   - split; [apply run_ofb_ok; assumption | eapply plain_last; eassumption].
@@ -173,14 +189,14 @@ Qed.
 (** ** constants *)
 Definition cv_okb (v : cv_spec) : bool := match v with CV_int z => int64b z | CV_str c => run_ofb p_strch c end.
 Definition cn_okb (d : cn_spec) : bool :=
-  run_ofb p_blank (cn_g1 d) && ty_okb (cn_ty d) && identb (cn_c d) (cn_t d) && run_ofb p_blank (cn_g2 d)
+  run_ofb p_blank (cn_g1 d) && ty_okb (cn_ty d) && ty_tightb (cn_ty d) && identb (cn_c d) (cn_t d) && run_ofb p_blank (cn_g2 d)
   && run_ofb p_blank (cn_g3 d) && cv_okb (cn_v d) && run_ofb p_blank (cn_g4 d) && run_ofb p_wsnl (cn_w d).
 
 Lemma cn_okb_ok : forall d, cn_okb d = true -> cn_ok d.
 Proof.
   intros d H. unfold cn_okb in H. band H.
   match goal with Hid : identb _ _ = true |- _ => destruct (identb_ok _ _ Hid) as (Hc & Hp & Ht) end.
-  unfold cn_ok. fin_ok; try (apply ty_okb_ok; assumption).
+  unfold cn_ok. fin_ok; try (apply ty_okb_ok; assumption); try (apply ty_tightb_ok; assumption).
   match goal with Hv : cv_okb _ = true |- _ => rename Hv into Hcv end.
   destruct (cn_v d); cbn [cv_okb cv_ok] in *; [exact (int64b_ok _ Hcv) | exact (run_ofb_ok _ _ Hcv)].
 Qed.
@@ -190,9 +206,13 @@ Definition nl_ledb (w : bytes) : bool := match w with [] => true | d :: _ => d =
 Lemma nl_ledb_ok : forall w, nl_ledb w = true -> nl_led w.
 Proof. intros [|d w] H; [exact I|]. cbn in *. apply Z.eqb_eq in H. exact H. Qed.
 
-Definition ow_okb (ow : ow_spec) : bool := match ow with OW_none => true | OW_oneway W => run_ofb p_wsnl W end.
+Definition ow_okb (ow : ow_spec) : bool :=
+  match ow with OW_none => true | OW_oneway W => run_ofb p_wsnl W && nonnilb W end.
 Definition ret_okb (r : ret_spec) : bool :=
-  match r with R_void W => run_ofb p_wsnl W | R_type t W => ty_okb t && run_ofb p_wsnl W && nl_ledb W end.
+  match r with
+  | R_void W => run_ofb p_wsnl W && nonnilb W
+  | R_type t W => ty_okb t && run_ofb p_wsnl W && nl_ledb W && (ty_tightb t || nonnilb W)
+  end.
 Definition fn_tail_okb (tl : fn_tail) : bool :=
   match tl with
   | FN_plain W2 => run_ofb p_wsnl W2
@@ -215,9 +235,11 @@ Proof.
   intros f H. unfold fn_okb in H. band_all.
   match goal with Hid : identb _ _ = true |- _ => destruct (identb_ok _ _ Hid) as (Hc & Hp & Ht) end.
   unfold fn_ok. fin_ok; try (apply fds_okb_ok; assumption).
-  - destruct (fn_ow f); cbn [ow_okb ow_ok] in *; [exact I | apply run_ofb_ok; assumption].
+  - destruct (fn_ow f); cbn [ow_okb ow_ok] in *; [exact I | band_all; fin_ok].
   - destruct (fn_ret f); cbn [ret_okb ret_ok] in *; band_all; fin_ok;
       try (apply ty_okb_ok; assumption); try (apply nl_ledb_ok; assumption).
+    match goal with Hor : (ty_tightb _ || nonnilb _) = true |- _ => apply orb_true_iff in Hor; destruct Hor as [Ho|Ho];
+      [left; exact (ty_tightb_ok _ Ho) | right; exact (nonnilb_ok _ Ho)] end.
   - destruct (fn_tl f) as [W2|W2 sep W3|W2 W4 W5 fs g sep W3]; cbn [fn_tail_okb fn_tail_ok] in *; band_all; fin_ok;
       try (apply fds_okb_ok; assumption).
     destruct sep; [apply is_sepb_ok | apply nl_ledb_ok]; assumption.
